@@ -27,6 +27,7 @@ import (
 	dlanteutils "github.com/EscanBE/evermint/v12/app/antedl/utils"
 	"github.com/EscanBE/evermint/v12/indexer"
 	rpcbackend "github.com/EscanBE/evermint/v12/rpc/backend"
+	rpcfilters "github.com/EscanBE/evermint/v12/rpc/namespaces/ethereum/eth/filters"
 	evmserver "github.com/EscanBE/evermint/v12/server"
 	rpctypes "github.com/EscanBE/evermint/v12/rpc/types"
 	evertypes "github.com/EscanBE/evermint/v12/types"
@@ -179,6 +180,8 @@ func TestEngineIndexer(t *testing.T) {
 		return hashID[h]
 	}
 	var known []common.Hash
+	var allLogs []*ethtypes.Log
+	firstH := int64(0)
 
 	for b := 0; b < nBlocks; b++ {
 		ctx := c.ctx()
@@ -400,6 +403,76 @@ func TestEngineIndexer(t *testing.T) {
 				p.Oracle("C14-rpc-block", "eth_getBlockByNumber differs from the consensus results (block %d, %d Ethereum of %d transactions): %s", h, len(want), len(eths), strings.Join(diffs, "; "))
 			}
 			p.Count("rpc-block-view")
+		}
+		if firstH == 0 {
+			firstH = h
+		}
+		// ---- the logs view: range filters (eth_getLogs / eth_newFilter over a block range, the path with the bloom
+		// pre-check) with SEVERAL alternatives per position, some of which occur in no block: every log of the consensus
+		// results that matches must be returned, and nothing else
+		for _, e := range eths {
+			if e.obs.hasRcpt && e.obs.receipt != nil {
+				for _, lg := range e.obs.receipt.Logs {
+					cp := *lg
+					cp.BlockNumber = uint64(h)
+					allLogs = append(allLogs, &cp)
+				}
+			}
+		}
+		if len(allLogs) > 0 && (b%4 == 3 || b == nBlocks-1) {
+			absentA := common.BytesToAddress([]byte{0xab, byte(b), 0x01})
+			absentT := common.BytesToHash([]byte{0xcd, byte(b), 0x02})
+			pick := allLogs[rng.Intn(len(allLogs))]
+			var crits []struct {
+				a []common.Address
+				t [][]common.Hash
+			}
+			add := func(a []common.Address, t [][]common.Hash) {
+				crits = append(crits, struct {
+					a []common.Address
+					t [][]common.Hash
+				}{a, t})
+			}
+			add([]common.Address{pick.Address}, nil)
+			add([]common.Address{absentA, pick.Address}, nil)
+			add([]common.Address{pick.Address, absentA}, nil)
+			add([]common.Address{absentA}, nil)
+			if len(pick.Topics) > 0 {
+				add(nil, [][]common.Hash{{pick.Topics[0]}})
+				add(nil, [][]common.Hash{{absentT, pick.Topics[0]}})
+				add([]common.Address{absentA, pick.Address}, [][]common.Hash{{pick.Topics[0], absentT}})
+				add(nil, [][]common.Hash{{absentT}})
+				if len(pick.Topics) > 1 {
+					add(nil, [][]common.Hash{{}, {absentT, pick.Topics[1]}})
+				}
+			}
+			// the recorder serves the blocks of this run only (a range that starts before them is answered with nothing,
+			// like on a node that has pruned those heights)
+			from := firstH
+			if rng.Chance(1, 2) {
+				from = h - int64(rng.Intn(4))
+				if from < firstH {
+					from = firstH
+				}
+			}
+			var inRange []*ethtypes.Log
+			for _, lg := range allLogs {
+				if int64(lg.BlockNumber) >= from && int64(lg.BlockNumber) <= h {
+					inRange = append(inRange, lg)
+				}
+			}
+			for _, cr := range crits {
+				want := rpcfilters.FilterLogs(inRange, nil, nil, cr.a, cr.t)
+				got, err := rpcfilters.NewRangeFilter(serverCtx.Logger, backend, from, h, cr.a, cr.t).Logs(context.Background(), 1_000_000, 1_000_000)
+				p.Count("range-filter")
+				if err != nil {
+					p.Oracle("C14-rpc-logs", "range log filter [%d,%d] failed: %v", from, h, err)
+					continue
+				}
+				if len(got) != len(want) {
+					p.Oracle("C14-rpc-logs", "range log filter [%d,%d] with %d address and %d topic alternatives returns %d logs, the consensus results contain %d matching logs", from, h, len(cr.a), len(cr.t), len(got), len(want))
+				}
+			}
 		}
 	}
 	_ = evmserver.ServiceName
